@@ -190,13 +190,18 @@ def tab(U):
 
 
 def ug_of(gate, params):
+    """get_unitary_and_grad(params) as observed: (answered?, table of the unitary part, shape of the gradient part padded with -1
+    to three entries).  NotImplementedError is the documented way of having no gradient; anything else that is raised is
+    observed as "no matrix" (and judged by the specification)."""
     try:
-        U2, _ = gate.get_unitary_and_grad(params)
-        return True, exact.table_of(np.asarray(U2))
+        U2, g = gate.get_unitary_and_grad(params)
+        shp = [int(x) for x in np.asarray(g).shape]
+        shp = (shp + [-1, -1, -1])[:3] if len(shp) <= 3 else [-2, -2, -2]
+        return True, exact.table_of(np.asarray(U2)), shp
     except NotImplementedError:
-        return False, DUMMY
+        return False, DUMMY, [-1, -1, -1]
     except Exception:
-        return True, NOOBS
+        return True, NOOBS, [-1, -1, -1]
 
 
 def observe_named(name, p, rs):
@@ -205,7 +210,7 @@ def observe_named(name, p, rs):
     params = reals(ps)
     adv, U = adv_of(gate, params)
     c = {'kind': 'named', 'name': name, 'p': list(p) or [0], 'r': list(rs), 'adv': adv, 'obs': tab(U)}
-    c['has_ug'], c['obs_ug'] = ug_of(gate, params)
+    c['has_ug'], c['obs_ug'], c['ug'] = ug_of(gate, params)
     ex = getattr(gate, '_expr', None)
     if ex is not None:
         try:
@@ -222,12 +227,15 @@ def observe_named(name, p, rs):
 # A construction is a nested tuple:
 #   ('base', name, p, radixes[, syntax])     library gate (p = ctor args + parameter ints, drawn when None)
 #   ('table', table, radixes)                ConstantUnitaryGate of a monomial matrix
-#   ('other', label, args)                   non-library gate used as an observed part (PDGate ...)
+#   ('other', label, args[, p])              gate outside the named library (PDGate, CKMGate, PauliGate ...) at an exact-domain point p
+#                                            (drawn when absent): its matrix is only observed, never judged against a definition
+#   ('vlg', c, locations, radixes|[], sel, hot, cold)   VariableLocationGate(c, locations[, radixes]) with location parameters
+#                                            hot*pi/4 at index sel and cold*pi/4 elsewhere (one-hot after softmax(., 10))
 #   ('dagger', c) ('power', c, k) ('tagged', c, tag) ('controlled', c, cr, levels) ('frozen', c, idxs)
 #   ('embedded', c, outer_radixes, maps) ('circuit', radixes, [(c, loc), ...])
 def blank(k):
     return {'k': k, 'name': '-', 'p': [0], 'cp': [0], 'r': [2], 't': [{'idx': 0, 'ph': 0}], 'n': 0, 'cr': [2], 'levels': [[0]],
-            'maps': [[0]], 'tag': '', 'fz': [], 'sub': [], 'locs': []}
+            'maps': [[0]], 'tag': '', 'fz': [], 'sub': [], 'locs': [], 'given': [], 'sel': 0}
 
 
 def table_matrix(tab):
@@ -238,11 +246,45 @@ def table_matrix(tab):
     return U
 
 
+# Gates outside the named library of Monomial.tla that still have exact-domain points: label -> (radixes, number of parameters)
+# as functions of the constructor arguments (what the construction has to advertise: stated here, not read from the object).
+OTHERS = {
+    'PD': (lambda a: [a[1]], lambda a: 0),
+    'CKM': (lambda a: [3], lambda a: 4),
+    'CKMdg': (lambda a: [3], lambda a: 4),
+    'RSU3': (lambda a: [3], lambda a: 1),
+    'U8': (lambda a: [3], lambda a: 8),
+    'Pauli': (lambda a: [2] * a[0], lambda a: 4 ** a[0]),
+    'PauliZ': (lambda a: [2] * a[0], lambda a: 2 ** a[0]),
+}
+OTHER_CTORS = [('PD', [0, 2]), ('PD', [1, 3]), ('PD', [2, 3]), ('PD', [3, 4]), ('CKM', []), ('CKMdg', []), ('U8', []),
+               ('Pauli', [1]), ('Pauli', [2]), ('PauliZ', [1]), ('PauliZ', [2]), ('PauliZ', [3])] + [('RSU3', [i]) for i in range(7)]
+
+
 def other_gate(label, args):
     from bqskit.ir import gates as G
-    if label == 'PD':
-        return G.PDGate(*args)
-    raise KeyError(label)
+    cls = {'PD': G.PDGate, 'CKM': G.CKMGate, 'CKMdg': G.CKMdgGate, 'RSU3': G.RSU3Gate, 'U8': G.U8Gate, 'Pauli': G.PauliGate,
+           'PauliZ': G.PauliZGate}[label]
+    return cls(*args)
+
+
+def other_point(rng, label, args):
+    """A parameter point (units of pi/4) at which the gate is a generalized permutation matrix with phases on the lattice."""
+    if label in ('CKM', 'CKMdg'):          # three mixing angles multiples of pi/2, any CP phase
+        return [2 * rng.randint(-2, 4) for _ in range(3)] + [rng.randint(-4, 8)]
+    if label == 'RSU3':                    # exp(i t lambda_j): diagonal generator (j = 2) any t, the others multiples of pi/2
+        return [rng.randint(-8, 8)] if args[0] == 2 else [2 * rng.randint(-4, 4)]
+    if label == 'U8':
+        return [2 * rng.randint(-4, 4) for _ in range(8)]
+    if label == 'Pauli':                   # exp(-i/2 (a0 I + a_j P_j)): a_j a multiple of pi
+        n = 4 ** args[0]
+        p = [0] * n
+        p[0] = rng.randint(-8, 8)
+        p[rng.randrange(1, n)] = 4 * rng.randint(-2, 3)
+        return p
+    if label == 'PauliZ':
+        return [rng.randint(-8, 8) for _ in range(2 ** args[0])]
+    return []
 
 
 def realise(c, rng):
@@ -270,10 +312,15 @@ def realise(c, rng):
         d['t_req'] = tab
         return gate, [], d
     if k == 'other':
-        gate = other_gate(c[1], c[2])
-        d.update(k='base', name='OTHER', tag='%s%s' % (c[1], tuple(c[2])), r=[int(x) for x in gate.radixes],
-                 t=exact.strip(exact.table_of(gate.get_unitary().numpy)), n=0)
-        return gate, [], d
+        label, args = c[1], list(c[2])
+        q = list(c[3]) if len(c) > 3 and c[3] is not None else other_point(rng, label, args)
+        gate = other_gate(label, args)
+        t = exact.table_of(gate.get_unitary(reals(q)).numpy)
+        if not all(e['within'] for e in t):
+            raise common.MachineryError('%s%s is not monomial at %s, a point the catalogue calls monomial' % (label, args, q))
+        d.update(k='base', name='OTHER', tag='%s%s' % (label, tuple(args)), r=OTHERS[label][0](args), t=exact.strip(t),
+                 n=OTHERS[label][1](args))
+        return gate, q, d
     if k == 'circuit':
         rs, parts = c[1], c[2]
         circ = Circuit(len(rs), list(rs))
@@ -296,6 +343,9 @@ def realise(c, rng):
         q = [x for i in order for x in made[i][2]]
         d.update(r=list(rs), sub=[made[i][3] for i in order], locs=[list(made[i][1]) for i in order])
         return gate, q, d
+    if k == 'exported':          # an object the package exports, judged as the construction its definition says it is
+        _, q, d = realise(c[2], rng)
+        return getattr(G, c[1]), q, d
     g, q, sd = realise(c[1], rng)
     d['sub'] = [sd]
     if k == 'dagger':
@@ -319,6 +369,11 @@ def realise(c, rng):
     if k == 'embedded':
         d['r'], d['maps'] = list(c[2]), [list(m) for m in c[3]]
         return G.EmbeddedGate(g, list(c[2]), [list(m) for m in c[3]]), q, d
+    if k == 'vlg':
+        locs, given, sel, hot, cold = [list(l) for l in c[2]], list(c[3]), c[4], c[5], c[6]
+        d.update(locs=locs, given=given, sel=sel)
+        gate = G.VariableLocationGate(g, [tuple(l) for l in locs], given) if given else G.VariableLocationGate(g, [tuple(l) for l in locs])
+        return gate, q + [hot if i == sel else cold for i in range(len(locs))], d
     raise KeyError(k)
 
 
@@ -331,7 +386,7 @@ def observe_composed(c, rng):
     params = reals(q)
     adv, U = adv_of(gate, params)
     case = {'kind': 'composed', 'd': d, 'adv': adv, 'obs': tab(U), 'top': c[0], 'leaves': leaves(d), 'q': q}
-    case['has_ug'], case['obs_ug'] = ug_of(gate, params)
+    case['has_ug'], case['obs_ug'], case['ug'] = ug_of(gate, params)
     return case, gate, q
 
 
@@ -353,8 +408,8 @@ def observe_eqhash(c1, c2, seed, how):
         hash_eq = bool(hash(g1) == hash(g2))
     except TypeError:
         hash_eq = False
-    return {'kind': 'eqhash', 'd1': d1, 'd2': d2, 't1': exact.table_of(g1.get_unitary(reals(q1)).numpy),
-            't2': exact.table_of(g2.get_unitary(reals(q2)).numpy), 'eq_ab': eq_ab, 'eq_ba': eq_ba, 'hash_eq': hash_eq,
+    return {'kind': 'eqhash', 'd1': d1, 'd2': d2, 't1': tab(adv_of(g1, reals(q1))[1]),
+            't2': tab(adv_of(g2, reals(q2))[1]), 'eq_ab': eq_ab, 'eq_ba': eq_ba, 'hash_eq': hash_eq,
             'how': how, 'top': c1[0], 'leaves': leaves(d1) + leaves(d2)}
 
 
@@ -379,9 +434,12 @@ def rand_base(rng, maxq=3):
     if x < 0.12:
         rs = [rng.choice([2, 3, 4]) for _ in range(rng.randint(1, 2))]
         return ('table', rand_table(rng, rs), rs)
-    if x < 0.17:
+    if x < 0.15:
         r = rng.choice([2, 3, 4])
         return ('other', 'PD', [rng.randrange(r), r])
+    if x < 0.17:
+        label, args = rng.choice([o for o in OTHER_CTORS if o[0] != 'PD' and len(OTHERS[o[0]][0](o[1])) <= maxq])
+        return ('other', label, args, None)
     if x < 0.21:
         n = rng.randint(1, 3)
         return ('base', 'PERM', rng.sample(range(n), rng.randint(1, n)), [2] * n)
@@ -399,13 +457,23 @@ def radixes_of(c):
     if k == 'table':
         return list(c[2])
     if k == 'other':
-        return [c[2][1]]
+        return OTHERS[c[1]][0](c[2])
     if k == 'circuit':
         return list(c[1])
+    if k == 'vlg':
+        if c[3]:
+            return list(c[3])
+        ir, m = radixes_of(c[1]), {}
+        for l in c[2]:
+            for r, qd in zip(ir, l):
+                m.setdefault(qd, r)
+        return [m[i] for i in range(len(m))]
     if k == 'controlled':
         return list(c[2]) + radixes_of(c[1])
     if k == 'embedded':
         return list(c[2])
+    if k == 'exported':
+        return radixes_of(c[2])
     return radixes_of(c[1])
 
 
@@ -418,20 +486,46 @@ def nparams_of(c):
         if name in ('MPRZ', 'MPRY'):
             return 2 ** (len(c[3]) - 1)
         return exact.PARAM_ARITY.get(name, 0)
-    if k in ('table', 'other'):
+    if k == 'table':
         return 0
+    if k == 'other':
+        return OTHERS[c[1]][1](c[2])
     if k == 'circuit':
         return sum(nparams_of(s) for s, _ in c[2])
+    if k == 'vlg':
+        return nparams_of(c[1]) + len(c[2])
     if k == 'frozen':
         return nparams_of(c[1]) - len(c[2])
+    if k == 'exported':
+        return nparams_of(c[2])
     return nparams_of(c[1])
+
+
+def vlg_over(rng, c, n, full=None, nlocs=None, given=None):
+    """A VariableLocationGate construction of c on n qudits: candidate locations are the placements whose qudits have the radixes
+    of c (``full`` = radixes of the n qudits, drawn so that at least one placement exists), a random subset of them is offered and
+    one is selected.  ``given`` tells whether the radixes are handed to the constructor or left to it to infer."""
+    rs = radixes_of(c)
+    k = len(rs)
+    if full is None:
+        pos = rng.sample(range(n), k)
+        full = [rng.choice(rs) for _ in range(n)]
+        for q, r in zip(pos, rs):
+            full[q] = r
+    cands = [l for l in itertools.permutations(range(n), k) if all(full[q] == r for q, r in zip(l, rs))]
+    locs = rng.sample(cands, min(len(cands), nlocs or rng.randint(1, 4)))
+    covered = {q for l in locs for q in l} == set(range(n))
+    if given is None:
+        given = rng.random() < 0.5
+    hot, cold = rng.choice([(64, 0), (40, 0), (48, -8), (64, 8)])
+    return ('vlg', c, [list(l) for l in locs], list(full) if (given or not covered) else [], rng.randrange(len(locs)), hot, cold)
 
 
 def wrap(rng, c, maxdim=96):
     """One random composing constructor around construction c (or None when none fits)."""
     rs = radixes_of(c)
     dim = int(np.prod(rs))
-    kinds = ['dagger', 'power', 'tagged', 'controlled', 'controlled', 'embedded', 'circuit']
+    kinds = ['dagger', 'power', 'tagged', 'controlled', 'controlled', 'embedded', 'circuit', 'vlg']
     if nparams_of(c) > 0:
         kinds += ['frozen', 'frozen']
     k = rng.choice(kinds)
@@ -463,6 +557,12 @@ def wrap(rng, c, maxdim=96):
             return None
         maps = [rng.sample(range(o), r) for r, o in zip(rs, outer)]
         return ('embedded', c, outer, maps)
+    if k == 'vlg':
+        n = min(4, len(rs) + rng.randint(0, 2))
+        if any(r != 2 for r in rs) and rng.random() < 0.7:
+            return None         # (the qubit-only implementation: mostly qubit parts, a few others to keep the clause alive)
+        v = vlg_over(rng, c, n)
+        return v if int(np.prod(radixes_of(v))) <= maxdim else None
     if k == 'circuit':
         extra = [rng.choice([2, 3]) for _ in range(rng.randint(0, 1))]
         n = len(rs) + len(extra)
@@ -488,6 +588,15 @@ def wrap(rng, c, maxdim=96):
     return None
 
 
+# location sets by width of the part (all qudits covered, so that the radixes can also be left to the constructor); they contain
+# placements whose qudit permutation is not its own inverse, e.g. (1, 2) on three qudits
+VLG_LOCS = {
+    1: [[[0], [1]], [[2], [0], [1]], [[0]]],
+    2: [[[0, 1], [1, 2], [0, 2]], [[1, 0], [2, 1], [2, 0], [0, 1]], [[0, 1], [1, 0]], [[2, 3], [3, 0], [1, 3], [0, 1]]],
+    3: [[[0, 1, 2], [1, 2, 0], [2, 0, 1], [2, 1, 0]], [[1, 2, 3], [3, 0, 2], [0, 1, 2]]],
+}
+
+
 def composed_catalogue(rng, count):
     out = []
     # systematic part: every composing constructor on every base
@@ -504,6 +613,34 @@ def composed_catalogue(rng, count):
         for k in range(1, n + 1):
             for idxs in itertools.combinations(range(n), k):
                 out.append(('frozen', b, list(idxs)))
+    # VariableLocationGate: every base over fixed location sets of several widths, every location selected once
+    for name, rs in BASES:
+        if any(r != rs[0] for r in rs):
+            continue
+        b = ('base', name, None, rs)
+        for locs in VLG_LOCS[len(rs)] if rs[0] == 2 else VLG_LOCS[len(rs)][:1]:
+            n = 1 + max(q for l in locs for q in l)
+            if len(rs) == 2 and n == 4 and BASES.index((name, rs)) % 3:
+                continue
+            for sel in range(len(locs)):
+                hot, cold = [(64, 0), (40, 0), (48, -8)][(sel + n) % 3]
+                out.append(('vlg', b, locs, [rs[0]] * n if (sel + len(locs)) % 2 else [], sel, hot, cold))
+    # gates outside the named library, alone (their unitary_and_grad / dimension clauses) and under each composing constructor
+    for label, args in OTHER_CTORS:
+        o = ('other', label, args, None)
+        rs = radixes_of(o)
+        out += [o] * (1 if label == 'PD' else 4)
+        out += [('dagger', o), ('power', o, -2), ('controlled', o, [2], [[1]])]
+        if len(rs) <= 2:
+            out.append(('embedded', o, [r + 1 for r in rs], [list(range(1, r + 1)) for r in rs]))
+        if nparams_of(o) > 0:
+            out.append(('frozen', o, [0]))
+            out.append(('frozen', o, list(range(nparams_of(o)))))
+        if rs[0] == 2 and len(rs) <= 2:
+            locs = VLG_LOCS[len(rs)][0]
+            out += [('vlg', o, locs, [], sel, 64, 0) for sel in range(len(locs))]
+    # the two FrozenParameterGate objects the package exports: U1qPiGate is on the exact domain (U1qPi2Gate never is)
+    out += [('exported', 'U1qPiGate', ('frozen', ('base', 'U1q', [4, a], [2]), [0])) for a in (0, 3, -2)]
     while len(out) < count:
         c = rand_base(rng)
         depth = rng.choice([1, 1, 2, 2, 3])
@@ -631,10 +768,47 @@ def _has_ctrl_of_const_composed(d):
 
 def _nparams_desc(d):
     if d['k'] == 'base':
-        return 0 if d['name'] in ('TABLE', 'OTHER') else len(d['p']) - len([x for x in d['cp']]) if d['name'] in ('MPRZ', 'MPRY') else (
+        return d['n'] if d['name'] in ('TABLE', 'OTHER') else len(d['p']) - len([x for x in d['cp']]) if d['name'] in ('MPRZ', 'MPRY') else (
             len(d['p']) if d['name'] == 'DIAG' else exact.PARAM_ARITY.get(d['name'], 0))
     n = sum(_nparams_desc(s) for s in d['sub'])
-    return n - len(d['fz']) if d['k'] == 'frozen' else n
+    return n - len(d['fz']) if d['k'] == 'frozen' else n + len(d['locs']) if d['k'] == 'vlg' else n
+
+
+def _rad_desc(d):
+    k = d['k']
+    if k in ('base', 'embedded', 'circuit'):
+        return list(d['r'])
+    if k == 'controlled':
+        return list(d['cr']) + _rad_desc(d['sub'][0])
+    if k == 'vlg':
+        if d['given']:
+            return list(d['given'])
+        ir, m = _rad_desc(d['sub'][0]), {}
+        for l in d['locs']:
+            for r, qd in zip(ir, l):
+                m.setdefault(qd, r)
+        return [m[i] for i in sorted(m)]
+    return _rad_desc(d['sub'][0])
+
+
+def _vlg_class(d):
+    """Input classes of the VariableLocationGate findings: 'non-qubit' (some VariableLocationGate below is not on qubits only),
+    'non-involutive' (the selected location of some VariableLocationGate below is a qudit permutation that is not its own
+    inverse), else ''."""
+    out = set()
+    if d['k'] == 'vlg':
+        rs = _rad_desc(d)
+        if any(r != 2 for r in rs):
+            out.add('non-qubit')
+        loc = list(d['locs'][d['sel']])
+        full = loc + [q for q in range(len(rs)) if q not in loc]
+        if any(full[full[i]] != i for i in range(len(full))):
+            out.add('non-involutive')
+    for s in d['sub']:
+        x = _vlg_class(s)
+        if x:
+            out.update(x.split('+'))
+    return '+'.join(sorted(out))
 
 
 def key_of(case, clause):
@@ -642,8 +816,13 @@ def key_of(case, clause):
     k = {'kind': case['kind'], 'clause': base}
     if case['kind'] == 'composed':
         d = case['d']
-        k['pattern'] = ('controlled-constant-composed-under-' + d['k']) if (d['k'] in ('embedded', 'circuit', 'frozen', 'dagger', 'power', 'tagged')
-                                                                            and _has_ctrl_of_const_composed(d)) else ''
+        v = _vlg_class(d)
+        if v:
+            k['pattern'] = 'vlg-' + v
+        elif _has_ctrl_of_const_composed(d):
+            k['pattern'] = 'controlled-constant-composed' + ('' if d['k'] == 'controlled' else '-under-' + d['k'])
+        else:
+            k['pattern'] = ''
     if ':' in clause:
         k['sub'] = clause.split(':', 1)[1]
     if case['kind'] in ('named', 'qiskit'):
@@ -699,7 +878,7 @@ def rebuild(recipe):
     if h == 'inverse':
         try:
             return observe_inverse(totuple(recipe['c']), random.Random(recipe['seed']))
-        except RuntimeError:           # the gate has no matrix at all: already a `dimension` verdict of its named case
+        except (RuntimeError, ValueError):     # the gate has no matrix at all: already a `dimension` verdict of its named / composed case
             return None
     if h == 'eqhash':
         return observe_eqhash(totuple(recipe['c1']), totuple(recipe['c2']), recipe['seed'], recipe['label'])
@@ -734,6 +913,8 @@ def run(ctx: Ctx) -> Outcome:
     verdicts, states, trans, _ = exact.par_validate(SPEC, CFG, cases, ctx.scratch, groups=8)
     for idx, _step, clause, _ in verdicts:
         c = cases[idx]
+        if clause == 'spec-inconsistent':
+            raise common.MachineryError('GateLib.tla: Conjugated and Placed disagree on case %s' % str(c.get('d'))[:600])
         small = {k: v for k, v in c.items() if k not in ('obs', 'obs_ug', 'obs_x', 'obs_inv', 't1', 't2')}
         out.violations.append(Violation('C18', clause.split(':')[0], key_of(c, clause),
                                         '%s: %s' % (clause, str(small)[:900]), {'case': c, 'recipe': recipes[idx]}))
